@@ -317,6 +317,7 @@ package biscuit
 //@ ensures row_parens[C07]: *op.Kind == pb.OpUnary_Parens ==> err == nil && res is datalog.Parens
 //@ ensures row_length[C07]: *op.Kind == pb.OpUnary_Length ==> err == nil && res is datalog.Length
 //@ ensures unknown_kind[C07 C10]: *op.Kind != pb.OpUnary_Negate && *op.Kind != pb.OpUnary_Parens && *op.Kind != pb.OpUnary_Length ==> err != nil
+//@ ensures dec[C07]: err == nil ==> unaryDec(op, res)
 
 //@ func protoExprBinaryToTokenExprBinary(op *pb.OpBinary) (res datalog.BinaryOpFunc, err error)
 //@ serves C07 C10 C19
@@ -341,13 +342,16 @@ package biscuit
 //@ ensures row_intersection[C07]: *op.Kind == pb.OpBinary_Intersection ==> err == nil && res is datalog.Intersection
 //@ ensures row_union[C07]: *op.Kind == pb.OpBinary_Union ==> err == nil && res is datalog.Union
 //@ ensures unknown_kind[C07 C10]: (*op.Kind < 0 || *op.Kind > 16) ==> err != nil
+//@ ensures dec[C07]: err == nil ==> binaryDec(op, res)
 
 //@ func protoExpressionToTokenExpressionV2(input *pb.ExpressionV2) (res datalog.Expression, err error)
 //@ serves C07 C10 C19
 //@ requires pbExprWF(input)
 //@ modifies nothing
 //@ loop 0 invariant len(expr) == len(input.Ops) && fresh(arr(expr)) && (forall j int :: { expr[j] } 0 <= j && j < #i ==> opWF(expr[j]))
+//@ loop 0 invariant ops[C07]: forall j int :: { expr[j] } 0 <= j && j < #i ==> opDec(input.Ops[j], expr[j])
 //@ ensures err == nil ==> exprWF(res) && fresh(arr(res))
+//@ ensures dec[C07]: err == nil ==> exprDec(input, res)
 //@ ensures err != nil ==> res == nil
 
 //@ func protoRuleToTokenRuleV2(input *pb.RuleV2) (res *datalog.Rule, err error)
@@ -356,7 +360,11 @@ package biscuit
 //@ modifies nothing
 //@ loop 0 invariant len(body) == len(input.Body) && fresh(arr(body)) && (forall j int :: { body[j] } 0 <= j && j < #i ==> predWF(body[j]))
 //@ loop 1 invariant len(expressions) == len(input.Expressions) && fresh(arr(expressions)) && predsWF(body) && (forall j int :: { expressions[j] } 0 <= j && j < #i ==> exprWF(expressions[j]))
+//@ loop 0 invariant body_dec[C07]: forall j int :: { body[j] } 0 <= j && j < #i ==> predDec(input.Body[j], body[j])
+//@ loop 1 invariant body_dec[C07]: len(body) == len(input.Body) && (forall j int :: { body[j] } 0 <= j && j < len(input.Body) ==> predDec(input.Body[j], body[j]))
+//@ loop 1 invariant exprs_dec[C07]: forall j int :: { expressions[j] } 0 <= j && j < #i ==> exprDec(input.Expressions[j], expressions[j])
 //@ ensures err == nil ==> res != nil && fresh(res) && ruleWF(*res)
+//@ ensures dec[C07]: err == nil ==> ruleDec(input, *res)
 //@ ensures err != nil ==> res == nil
 
 //@ func protoCheckToTokenCheckV2(input *pb.CheckV2) (res *datalog.Check, err error)
@@ -364,7 +372,9 @@ package biscuit
 //@ requires pbCheckWF(input)
 //@ modifies nothing
 //@ loop 0 invariant len(queries) == len(input.Queries) && fresh(arr(queries)) && (forall j int :: { queries[j] } 0 <= j && j < #i ==> ruleWF(queries[j]))
+//@ loop 0 invariant queries_dec[C07]: forall j int :: { queries[j] } 0 <= j && j < #i ==> ruleDec(input.Queries[j], queries[j])
 //@ ensures err == nil ==> res != nil && fresh(res) && checkWF(*res)
+//@ ensures dec[C07]: err == nil ==> checkDec(input, *res)
 //@ ensures err != nil ==> res == nil
 
 //@ func protoBlockToTokenBlock(input *pb.Block) (res *Block, err error)
@@ -374,7 +384,14 @@ package biscuit
 //@ loop 0 invariant forall j int :: { facts[j] } 0 <= j && j < #i ==> predWF(facts[j].Predicate)
 //@ loop 1 invariant factsWF(facts) && (forall j int :: { rules[j] } 0 <= j && j < #i ==> ruleWF(rules[j]))
 //@ loop 2 invariant factsWF(facts) && rulesWF(rules) && (forall j int :: { checks[j] } 0 <= j && j < #i ==> checkWF(checks[j]))
+//@ loop 0 invariant facts_dec[C07]: len(facts) == len(input.FactsV2) && (forall j int :: { facts[j] } 0 <= j && j < #i ==> predDec(input.FactsV2[j].Predicate, facts[j].Predicate))
+//@ loop 1 invariant facts_dec[C07]: len(facts) == len(input.FactsV2) && (forall j int :: { facts[j] } 0 <= j && j < len(input.FactsV2) ==> predDec(input.FactsV2[j].Predicate, facts[j].Predicate))
+//@ loop 1 invariant rules_dec[C07]: len(rules) == len(input.RulesV2) && (forall j int :: { rules[j] } 0 <= j && j < #i ==> ruleDec(input.RulesV2[j], rules[j]))
+//@ loop 2 invariant facts_dec[C07]: len(facts) == len(input.FactsV2) && (forall j int :: { facts[j] } 0 <= j && j < len(input.FactsV2) ==> predDec(input.FactsV2[j].Predicate, facts[j].Predicate))
+//@ loop 2 invariant rules_dec[C07]: len(rules) == len(input.RulesV2) && (forall j int :: { rules[j] } 0 <= j && j < len(input.RulesV2) ==> ruleDec(input.RulesV2[j], rules[j]))
+//@ loop 2 invariant checks_dec[C07]: len(checks) == len(input.ChecksV2) && (forall j int :: { checks[j] } 0 <= j && j < #i ==> checkDec(input.ChecksV2[j], checks[j]))
 //@ ensures version_gate[C07]: err == nil ==> input.Version != nil && *input.Version == 3 && res.version == 3
+//@ ensures dec[C07]: err == nil ==> blockDec(input, res)
 //@ ensures err == nil ==> res != nil && fresh(res) && blockWF(res)
 //@ ensures err != nil ==> res == nil
 
